@@ -224,6 +224,10 @@ func (e *affEnv) eval(v ssa.Value) aff {
 			if k, ok := y.isConst(); ok {
 				return x.scale(k)
 			}
+		case token.SHL:
+			if k, ok := e.eval(t.Y).isConst(); ok && k >= 0 && k < 32 {
+				return e.eval(t.X).scale(1 << uint(k))
+			}
 		}
 		return aff{}
 	case *ssa.Phi:
